@@ -250,7 +250,7 @@ def one_case(args):
 def run(res):
     exe = build.fastpasta("rel")
     wd = scratch("c16")
-    n = 200 if res.tier == "quick" else 5000
+    n = 200 if res.tier == "quick" else 20000
     for o in pmap(one_case, [(exe, wd, res.seed, c, res.tier) for c in range(n)]):
         res.evaluations += o["runs"]
         if o["viol"]:
